@@ -645,7 +645,12 @@ func (s *session) verifySelect(msg *Message, checkTooHigh bool, checkTooLow bool
 		return reject
 	}
 
-	switch s.stateMachine.State.(type) {
+	currentState := s.stateMachine.State
+	if pending, isPending := currentState.(pendingTimeout); isPending {
+		// A test request is outstanding: look at the state it wraps.
+		currentState = pending.sessionState
+	}
+	switch currentState.(type) {
 	case resendState:
 		//Don't check staleness of a replay
 	default:
